@@ -428,6 +428,10 @@ func init() {
 				{Scenario: "sbuf.long", Params: vx.P("pairs", "1500000"), Weight: 6},
 				{Scenario: "sbuf.orders", Params: vx.P("n", "3", "plen", "16639"), Weight: 2},
 				{Scenario: "sbuf.bfs", Params: vx.P("n", "7"), Weight: 3},
+				{Scenario: "sesh.orders", Params: vx.P("n", "4"), Bound: 1, Weight: 3},
+				{Scenario: "sesh.orders", Params: vx.P("n", "4", "lateconn", "1"), Bound: 1, Weight: 3},
+				{Scenario: "sesh.orders", Params: vx.P("n", "3", "singleplex", "1"), Bound: 1, Weight: 3},
+				{Scenario: "sesh.orders", Params: vx.P("n", "4", "lateconn", "1", "singleplex", "1"), Bound: 1, Weight: 3},
 				{Scenario: "sbuf.sched", Params: vx.P("n", "3"), Bound: -1, BudgetS: 100, Weight: 4},
 				{Scenario: "sbuf.sched", Params: vx.P("n", "3", "crosscheck", "1"), Bound: 2, BudgetS: 100, Weight: 4},
 				// two deliverers (one receive loop per connection) feeding the same stream's buffer concurrently
@@ -442,6 +446,10 @@ func init() {
 			{Scenario: "sbuf.long", Params: vx.P("pairs", "6000000"), Weight: 9},
 			{Scenario: "sbuf.orders", Params: vx.P("n", "4", "plen", "16638"), Weight: 5},
 			{Scenario: "sbuf.bfs", Params: vx.P("n", "10"), Weight: 5},
+			{Scenario: "sesh.orders", Params: vx.P("n", "5"), Bound: 2, Weight: 6},
+			{Scenario: "sesh.orders", Params: vx.P("n", "5", "lateconn", "1"), Bound: 2, Weight: 6},
+			{Scenario: "sesh.orders", Params: vx.P("n", "5", "singleplex", "1"), Bound: 2, Weight: 6},
+			{Scenario: "sesh.orders", Params: vx.P("n", "5", "lateconn", "1", "singleplex", "1"), Bound: 2, Weight: 6},
 			{Scenario: "sbuf.sched", Params: vx.P("n", "3"), Bound: -1, BudgetS: 900, Weight: 4},
 			{Scenario: "sbuf.sched", Params: vx.P("n", "4"), Bound: 3, BudgetS: 900, Weight: 6},
 			{Scenario: "mux.transfer", Params: vx.P("conns", "2", "streams", "1", "writes", "4,4,4", "unit", "4"), Bound: 2, BudgetS: 900, Weight: 6},
